@@ -2,6 +2,7 @@ SPECIFICATION SpecMC
 CONSTANTS
   Starts = {"2x2","3x3","h3","v3","r3","n2"}
   OpNames = {"InsertRow","AppendRow","DeleteRow","DeleteRows","InsertColumn","AppendColumn","DeleteColumn","DeleteColumns","SetCellText","ClearCellParagraphs","AddCellParagraph","AddNestedTable","MergeCellsHorizontal","MergeCellsVertical","MergeCellsRange","UnmergeCells","ClearTable","CopyTable","ReadAll"}
+  Creates = "core"
   Depth = 0
   Slack = 0
   PairMode = "core"
